@@ -249,6 +249,12 @@ func cmdRun(args []string) {
 				fmt.Fprintf(os.Stderr, "TRACE %d: %s\n", k, strings.Join(c.Trace, " | "))
 			}
 			h := core.Hash64([]byte(strings.Join(c.Trace, "\n")))
+			// gauges (max_*) are measurements of the Go runtime (bytes allocated), not decisions of the run
+			for pk := range rec.Probes {
+				if strings.HasPrefix(pk, "max_") {
+					delete(rec.Probes, pk)
+				}
+			}
 			emitJSON(map[string]any{"det": k, "mode": rec.Mode, "steps": rec.Steps, "switches": rec.Switches, "case": rec.CaseHash, "log": rec.LogHash,
 				"trace": fmt.Sprintf("%016x", h), "faults": rec.Faults, "probes": rec.Probes, "tape": core.Hash64(tapeBytes(c.Tape.Recorded())), "sched": core.Hash64(schedBytes(c.Schedule))})
 		} else if *samples > 0 && rec.Nontriv {
